@@ -554,6 +554,7 @@ def bad_jvp(primals, tangents):
 
 
 def run(chk, S: Session):
+    _TRI.clear()
     chk.trust("qr(M) = (Q, R) with R upper-triangular", "triu / tril", "products of like-triangular matrices are triangular")
     r1 = chk.rule("R-C16-1", "custom differentiation rules return tangents inside the tangent space of their primal output (structure lattice)", floor=1)
     r2 = chk.rule("R-C16-2", "stop_gradient only directly behind a constructor flag; none executed with the flag off", floor=4)
